@@ -17,7 +17,7 @@ VARIANTS = [
     V("map-mask-only-truth", M, "        y_true = y_true[~no_class]\n        y_score = y_score[~no_class]\n", "        y_true = y_true[~no_class]\n", "R09.3"),
     V("accuracy-delegates-to-balanced", M, "    return metrics.accuracy_score(  # type: ignore", "    return metrics.balanced_accuracy_score(  # type: ignore", "R09.3"),
     V("jaccard-micro", M, "        average=\"samples\",", "        average=\"micro\",", "R09.3"),
-    V("true-class-prob-none-is-zero", M, "    if y_true is None:\n        return 1 - y_score.sum()\n\n    return y_score[y_true]\n\n\ndef balanced_accuracy", "    if y_true is None:\n        return 0.0\n\n    return y_score[y_true]\n\n\ndef balanced_accuracy", "R09.3"),
+    V("true-class-prob-none-is-zero", M, "    if y_true is None:\n        return max(0.0, 1 - y_score.sum())\n\n    return y_score[y_true]\n\n\ndef balanced_accuracy", "    if y_true is None:\n        return 0.0\n\n    return y_score[y_true]\n\n\ndef balanced_accuracy", "R09.3"),
     V("clipcls-no-empty-guard", T + "clip_classification.py", "    return float(np.mean(non_none_scores)) if non_none_scores else 0.0", "    return float(np.mean(non_none_scores))", "R09.4"),
     V("pinned-unguarded-clip-mean(F11)", T + "sound_event_classification.py", "    scores = [match.score for match in matches if match.score is not None]\n    score = float(np.mean(scores)) if scores else 0.0\n",
       "    score = np.mean(\n        [match.score for match in matches if match.score is not None]\n    )\n", "R09.4"),
@@ -35,4 +35,6 @@ VARIANTS = [
     # wave 6: the encoder the tasks encode with
     V("encoder-key-by-label(C19/R19.1)", "src/soundevent/evaluation/encoding.py", "            (tag.term, tag.value): i for i, tag in enumerate(tags)", "            (tag.term.label, tag.value): i for i, tag in enumerate(tags)", "C19/R19.1",
       also=(("src/soundevent/evaluation/encoding.py", "        return self._mapping.get((tag.term, tag.value))", "        return self._mapping.get((tag.term.label, tag.value))"),)),
+    # F23: the pre-repair form (unclamped 'none' probability)
+    V("none-probability-unclamped(F23)", M, "        return max(0.0, 1 - y_score.sum())", "        return 1 - y_score.sum()", "R09.7"),
 ]
